@@ -19,7 +19,11 @@ def _compilable(summ):
     return True
 
 
-ENGINE_B = {'template': 't_enum', 'kinds': ['enum_'], 'max_quick': 12, 'max_thorough': 64, 'accept': _compilable}
+# fixed witnesses: enums whose written values are not ascending / not positional (an explicit value equal to the variant's position after
+# a predecessor that is not position - 1, descending values, an implicit variant between explicit ones)
+ENGINE_B = {'template': 't_enum', 'kinds': ['enum_'], 'max_quick': 12, 'max_thorough': 64, 'accept': _compilable,
+            'fixed': [[8, 6, 3, 0, 1, 0, 0, 0, 1, -1, 0, 0, 0, 0, 1, 2, 0], [8, 1, 3, 0, 1, 0, 0, 0, 1, 16, 0, 1, 1, 0, 1, 32, 0],
+                      [8, 7, 3, 0, 1, 0, 0, 0, 0, 0, 0, 1, 100, 0, 1, 2, 0], [8, 2, 3, 1, 1, 1, 0, 0, 1, 2, 0, 1, 1, 1, 1, 0, 0]]}
 BASES = [('u8', 8, False), ('u16', 16, False), ('u32', 32, False), ('u64', 64, False),
          ('i8', 8, True), ('i16', 16, True), ('i32', 32, True), ('i64', 64, True)]
 VARIANTS = ['V0', 'V1', 'V2', 'V3', 'V4', 'V5', 'V6', 'V7']
